@@ -114,6 +114,16 @@ func main() {
 		return
 	}
 	checkNames(d)
+	// an expected-deviation letter is only accepted while its finding is live in known_findings.json
+	for _, c := range []byte(*dev) {
+		if c == '-' {
+			continue
+		}
+		if id, ok := devIDs[c]; !ok || !lib.HasKnown(knownList, id) {
+			rep.Add(lib.Finding{Kind: "violation", Class: "config:dev-letter-not-live", What: "-dev names deviation `" + string(c) + "` (" + devIDs[c] + "), which known_findings.json does not list as a live known finding: the model must run without it",
+				Replay: map[string]any{"dev": *dev}})
+		}
+	}
 	cases := buildCases()
 	const batch = 4000
 	for s := 0; s < len(cases); s += batch {
@@ -126,11 +136,6 @@ func main() {
 			os.Exit(3)
 		}
 	}
-	for id := range seenKnown {
-		if !lib.HasKnown(knownList, id) {
-			rep.Notes = append(rep.Notes, "known id used but not listed: "+id)
-		}
-	}
 	if err := rep.Write(*outPath); err != nil {
 		fmt.Fprintln(os.Stderr, err)
 		os.Exit(3)
@@ -138,6 +143,9 @@ func main() {
 }
 
 var seenKnown = map[string]bool{}
+
+// watchdog: the time one case may take in a worker before it counts as silent.
+const watchdog = 20 * time.Second
 
 // checkNames: the harness's lists of modelled and unmodelled functions are the model's, and together
 // they are what asm.FnDocs() registers in the tree under test.
@@ -486,7 +494,7 @@ func processBatch(d *lib.Driver, cases []kase) error {
 		plans = append(plans, k.plan)
 		roots = append(roots, k.root)
 	}
-	outs, err := runAll(plans, roots, *nworkers, 20*time.Second)
+	outs, err := runAll(plans, roots, *nworkers, watchdog)
 	if err != nil {
 		return err
 	}
@@ -504,7 +512,14 @@ func replayOf(k kase) map[string]any {
 	return map[string]any{"plan": k.plan, "root": k.root, "plan_text": show(k.plan), "root_text": show(k.root), "stream": k.stream}
 }
 
+// addKnown: known_findings.json is the authority. Only an id of its `known` list (for this property) is
+// reported as a known finding; an id that is not listed there — one that moved to `fixed`, or was never
+// recorded — is a VIOLATION, whatever -dev says.
 func addKnown(k *kase, id, class, what string) {
+	if !lib.HasKnown(knownList, id) {
+		violation(k, "unlisted-known:"+id+":"+class, "the behaviour recorded as "+id+" was observed, but known_findings.json does not list that id as a live known finding of "+*prop+" (it is fixed, or was never recorded): "+what, nil)
+		return
+	}
 	seenKnown[id] = true
 	rep.Add(lib.Finding{Kind: "known", Class: class, What: what, Replay: replayOf(*k), KnownID: id})
 }
@@ -530,6 +545,17 @@ func judge(d *lib.Driver, k *kase, w WOut, v verdicts) {
 	defer func() { rep.AddEval(1, nontrivial) }()
 	base := strings.SplitN(k.stream, ".", 2)[0]
 	// (a) the worker died or hung
+	if w.Crash == "timeout" && !descentSetOfContainer(mustTree(k.plan)) {
+		// a silent worker among thousands of cases may be a slow machine: the plan runs again, alone, in a
+		// fresh worker with ten times the time; only a second silence is reported
+		again, err := runAll([]string{k.plan}, []string{k.root}, 1, 10*watchdog)
+		if err == nil && len(again) == 1 && again[0].Crash != "timeout" {
+			rep.Count("slow."+base, 1)
+			w = again[0]
+		} else {
+			w.Crash = "timeout-confirmed"
+		}
+	}
 	if w.Crash != "" {
 		overflow := strings.Contains(w.Crash, "stack overflow") || strings.Contains(w.Crash, "goroutine stack exceeds")
 		oom := strings.Contains(w.Crash, "out of memory") || strings.Contains(w.Crash, "cannot allocate memory")
@@ -537,8 +563,8 @@ func judge(d *lib.Driver, k *kase, w WOut, v verdicts) {
 		case (w.Crash == "timeout" || oom) && descentSetOfContainer(mustTree(k.plan)):
 			nontrivial = 1
 			addKnown(k, idSelfSet, "hang:set-self-containing", "set/setall with a recursive descent in the path and a container value: jp.Set stores the value by reference and the descent walks into what it has just stored (C13-set-self-containing): the call does not end (memory grows until the watchdog or the address-space limit stops the worker)")
-		case w.Crash == "timeout":
-			violation(k, "timeout:"+base, "the implementation did not finish within the watchdog time", nil)
+		case w.Crash == "timeout-confirmed":
+			violation(k, "timeout:"+base, fmt.Sprintf("the implementation did not finish within the watchdog time (%v), and again not when run alone in a fresh process with %v", watchdog, 10*watchdog), nil)
 		case overflow && hasStop(v.cur, "diverge"):
 			nontrivial = 1
 			addKnown(k, idCyclic, "crash:cyclic", "the plan makes the data cyclic and then traverses it: fatal stack overflow (the model says `diverge`)")
@@ -614,12 +640,12 @@ func judge(d *lib.Driver, k *kase, w WOut, v verdicts) {
 		}
 	}
 	// (b) the same result on every run
-	enumer := enumerates(mustTree(k.plan)) || hasStop(v.cur, "enum")
+	order := newOrderJudge(k, v, r.Run1, r.Run2, r.Fresh, r.Repeat, r.Rerun)
 	if r.Repeat != "" && impl1 == impl2 && impl1 == fresh {
-		if enumer {
-			addKnown(k, idMapOrder, "rerun:map-order", "repeated runs differ; the plan enumerates a map (Go map iteration order)")
+		if how := order.explains(fresh, canonFloats(r.Repeat)); how != "" {
+			addKnown(k, idMapOrder, "rerun:map-order:"+how, "repeated runs differ; "+orderWhat[how])
 		} else {
-			violation(k, "nondeterministic:"+base, "repeated executions of the plan on equal roots differ", map[string]any{"first": fresh, "another": canonFloats(r.Repeat)})
+			violation(k, "nondeterministic:"+base, "repeated executions of the plan on equal roots differ"+order.why(), map[string]any{"first": fresh, "another": canonFloats(r.Repeat)})
 		}
 	}
 	if impl1 != impl2 || impl1 != fresh {
@@ -630,10 +656,11 @@ func judge(d *lib.Driver, k *kase, w WOut, v verdicts) {
 				id = devIDs['l']
 			}
 			addKnown(k, id, "rerun:literal-aliasing", "the second Execute of the same *Plan differs: the first run edited a literal of the plan (the model predicts both results; without literal sharing both runs agree)")
-		case enumer:
-			addKnown(k, idMapOrder, "rerun:map-order", "runs differ; the plan enumerates a map (Go map iteration order)")
+		case order.explains(impl1, impl2, fresh) != "":
+			how := order.explains(impl1, impl2, fresh)
+			addKnown(k, idMapOrder, "rerun:map-order:"+how, "runs differ; "+orderWhat[how])
 		default:
-			violation(k, "nondeterministic:"+base, "two executions on equal roots differ", map[string]any{"run1": impl1, "run2": impl2, "fresh": fresh})
+			violation(k, "nondeterministic:"+base, "two executions on equal roots differ"+order.why(), map[string]any{"run1": impl1, "run2": impl2, "fresh": fresh})
 		}
 	}
 	// (d) $.src changes only through the mutators
@@ -649,7 +676,146 @@ func judge(d *lib.Driver, k *kase, w WOut, v verdicts) {
 	}
 	// (c) String() rebuilds the plan
 	if r.StrPanic == "" && !r.Nil {
-		judgePrint(k, r, fresh, enumer, base)
+		judgePrint(k, r, fresh, order, base)
+	}
+}
+
+// orderJudge decides whether differing results of one plan on equal roots are C20-map-order. Both must hold:
+//   - site: a JSONPath ARGUMENT of the plan has a wildcard, descent, filter, slice or union that ranges
+//     over an object with two or more members of the data (enumSite, from the structure of plan and
+//     data), or the MODEL stops with `enum` (it reached the enumeration of such an object; by theorem
+//     order_independent a modelled run that does not stop there has one result under every order);
+//   - shape: the results are permutations of each other (equal when every list is read as a multiset),
+//     or differ only by which member of an object a "first match" took (memberSwaps), or are equal
+//     everywhere except at or below the places written by the statements from the first enumerating
+//     one on (downstream: values computed from the member taken) — or the model stopped with `enum`,
+//     in which case it proves that the result may follow the order.
+// Anything else that differs from run to run is a violation.
+type orderJudge struct {
+	site, modelEnum bool
+	members         map[string]bool
+	targets         [][]pfrag // what the statements from the first enumerating one on may write
+	raw             map[string]string // canonFloats(run) -> the run as the worker wrote it (parseTree reads that form)
+}
+
+var orderWhat = map[string]string{
+	"permutation": "a path argument enumerates an object of the data and the results are permutations of each other (Go map iteration order)",
+	"member":      "a path argument enumerates an object of the data and the results differ only in which member of that object the first match took (Go map iteration order)",
+	"downstream":  "a path argument enumerates an object of the data; the results are equal except at the places written by the statements from that one on, whose values are computed from the member(s) taken (Go map iteration order)",
+	"model-enum":  "the model stops at the enumeration of an object with several members: the result follows Go's map iteration order",
+}
+
+func okTree(run string) (any, bool) {
+	if !strings.HasPrefix(run, "ok ") {
+		return nil, false
+	}
+	v, err := parseTree(run[3:])
+	return v, err == nil
+}
+
+func newOrderJudge(k *kase, v verdicts, runs ...string) *orderJudge {
+	o := &orderJudge{modelEnum: hasStop(v.cur, "enum"), raw: map[string]string{}}
+	distinct := map[string]bool{}
+	for _, r := range runs {
+		distinct[r] = true
+		o.raw[canonFloats(r)] = r
+	}
+	if len(distinct) <= 2 && !o.modelEnum { // "" (no repeat) and one result: nothing to explain
+		n := 0
+		for r := range distinct {
+			if r != "" {
+				n++
+			}
+		}
+		if n <= 1 {
+			return o
+		}
+	}
+	plan := mustTree(k.plan)
+	datas := []any{mustTree(k.root)}
+	for r := range distinct {
+		if p := strings.SplitN(r, " ", 2); len(p) == 2 && (p[0] == "ok" || p[0] == "err") {
+			if t, err := parseTree(p[1]); err == nil {
+				datas = append(datas, t)
+			}
+		}
+	}
+	o.site = enumSite(plan, datas)
+	if o.site {
+		sts := statements(plan)
+		for i, st := range sts {
+			if enumSite(st, datas) {
+				for _, later := range sts[i:] {
+					writeTargets(later, &o.targets)
+				}
+				break
+			}
+		}
+	}
+	o.members = memberSet(plan, datas[:1]) // members of the objects of the root as given, and the plan's literals
+	return o
+}
+
+func (o *orderJudge) explains(runs ...string) string {
+	if !o.site && !o.modelEnum {
+		return ""
+	}
+	how := "permutation"
+	for i, r := range runs { // the callers pass canonFloats texts
+		if x, has := o.raw[r]; has {
+			runs[i] = x
+		}
+	}
+	first, ok := okTree(runs[0])
+	for _, r := range runs[1:] {
+		if canonFloats(r) == canonFloats(runs[0]) {
+			continue
+		}
+		t, ok2 := okTree(r)
+		switch {
+		case !o.site:
+			how = ""
+		case ok && ok2 && unorderedText(first) == unorderedText(t):
+		case ok && ok2 && memberSwaps(first, t, o.members):
+			if how == "permutation" {
+				how = "member"
+			}
+		case o.downstream(runs[0], r):
+			how = "downstream"
+		default:
+			how = ""
+		}
+		if how == "" {
+			break
+		}
+	}
+	if how == "" && o.modelEnum {
+		how = "model-enum"
+	}
+	return how
+}
+
+// downstream: both runs leave the data equal everywhere except at or below the places that the statements
+// from the first enumerating one on write (an error in one run only: those writes did not all happen).
+func (o *orderJudge) downstream(r1, r2 string) bool {
+	p1, p2 := strings.SplitN(r1, " ", 2), strings.SplitN(r2, " ", 2)
+	if len(p1) != 2 || len(p2) != 2 || (p1[0] != "ok" && p1[0] != "err") || (p2[0] != "ok" && p2[0] != "err") {
+		return false
+	}
+	a, e1 := parseTree(p1[1])
+	b, e2 := parseTree(p2[1])
+	if e1 != nil || e2 != nil {
+		return false
+	}
+	return diffConfined(a, b, nil, o.targets)
+}
+
+func (o *orderJudge) why() string {
+	switch {
+	case !o.site && !o.modelEnum:
+		return " (no path argument of the plan enumerates an object of the data)"
+	default:
+		return " (a path argument enumerates an object, but the results are not permutations of each other, do not differ only in the member taken, and differ outside the places written from the enumerating statement on)"
 	}
 }
 
@@ -760,7 +926,7 @@ func popcount(x int) int {
 
 // judgePrint: the SEN text must read back as the data of Simplify(), and the plan built from it must
 // behave as a freshly built plan.
-func judgePrint(k *kase, r *WRes, fresh string, enumer bool, base string) {
+func judgePrint(k *kase, r *WRes, fresh string, order *orderJudge, base string) {
 	simp, err := parseTree(r.Simp)
 	if err != nil {
 		// Simplify() holds something that is not plain data (not produced by the generators)
@@ -796,11 +962,11 @@ func judgePrint(k *kase, r *WRes, fresh string, enumer bool, base string) {
 	}
 	// same data: the rebuilt plan must behave as a freshly built one
 	if canonFloats(r.Rerun) != fresh {
-		if enumer {
-			addKnown(k, idMapOrder, "print:map-order", "runs differ; the plan enumerates a map")
+		if how := order.explains(fresh, canonFloats(r.Rerun)); how != "" {
+			addKnown(k, idMapOrder, "print:map-order:"+how, "runs differ; "+orderWhat[how])
 			return
 		}
-		violation(k, "print-behaviour:"+base, "the plan rebuilt from String() behaves differently", map[string]any{"string": r.Str, "fresh": fresh, "rebuilt": canonFloats(r.Rerun)})
+		violation(k, "print-behaviour:"+base, "the plan rebuilt from String() behaves differently"+order.why(), map[string]any{"string": r.Str, "fresh": fresh, "rebuilt": canonFloats(r.Rerun)})
 	}
 }
 
